@@ -92,6 +92,15 @@ T = {
  "C13-5": ("C13", "062ac51", "two concurrent heads with different clock times when the snapshot is saved", ["C13"], "VIOLATION (native replay) by VerifC13Snapshot (uneven concurrent chains)"),
  "C14-5": ("C14", "062ac51", "a write list with a repeated key or mixing * with keys", ["C14"], "VIOLATION (native replay) by VerifC14Reopen / VerifC14Injective"),
  "C18-6": ("C18", "062ac51", "two databases opened under one manifest root with different paths; Drop one", ["C18"], "VIOLATION (native replay) by VerifC18Drop (sibling under the same root)"),
+ # round 8 (base d77d3e0)
+ "C02-6": ("C02", "d77d3e0", "the first head exchange towards a peer is lost (or not merged), the sender's heads do not change, the link is cut and healed", ["C02"], "VIOLATION by VerifSysHeal"),
+ "C09-6": ("C09", "d77d3e0", "two databases opened on one instance with ONE reused *CreateDBOptions value", ["C09"], "VIOLATION (native replay) by VerifSysTwoDBs (shared-options)"),
+ "C10-5": ("C10", "d77d3e0", "a refused head that CLAIMS the address of a valid entry, announced before or with it; the valid entry announced (again) afterwards", ["C10"], "VIOLATION (native replay) by VerifC10Mixed (claims-valid-address)"),
+ "C11-5": ("C11", "d77d3e0", "request cancelled while one fetch slot serves several queued hashes and the slot holder took another worker's hash; later request for the same or a newer head", ["C11"], "VIOLATION (interpreter-schedule, P=1) by VerifC11Saturated"),
+ "C12-6": ("C12", "d77d3e0", "eight truncated frames (well-formed length prefix, short body), then a valid frame", ["C12"], "VIOLATION by VerifC12RawFrame"),
+ "C15-5": ("C15", "d77d3e0", "non-positive limit, cached local AND remote heads of concurrent chains, restart + Load", ["C15"], "VIOLATION (native replay) by VerifC15Load"),
+ "C17-5": ("C17", "d77d3e0", "two overlapping writers on a store with a materialised index (second writer skips its index refresh)", ["C17"], "VIOLATION (interpreter-schedule, P=1) by VerifC17Concurrent (view oracle)"),
+ "C19-5": ("C19", "d77d3e0", "replication of a multi-writer log with more entries than its largest clock", ["C19"], "VIOLATION (native replay) by VerifC19History / VerifSysTwoDBs"),
 }
 for seed, (prop, base, needs, by, note) in T.items():
     d = os.path.join(V, "seeded", seed)
